@@ -28,7 +28,7 @@ func init() {
 				"profile, device and their nested settings types is read by the cache encoder and written by the decoder. R7: no " +
 				"encoder loop appends a view of a buffer that the next iteration overwrites.",
 			NotCovered: "that the maps equal a reference model after arbitrary synchronisation sequences; protobuf wire compatibility.",
-			Rules: map[string]string{"C14-R1": "maps and generation only under mapsMu", "C14-R2": "clean-ups re-validated by generation; inserts bump it",
+			Rules: map[string]string{"C14-R11": "weekly-schedule codecs: all seven weekdays converted, each from/to the field of its own day (constant-index stores or a full loop over a weekday-ordered list)", "C14-R1": "maps and generation only under mapsMu", "C14-R2": "clean-ups re-validated by generation; inserts bump it",
 				"C14-R3": "full sync clears all maps", "C14-R4": "lookup re-check decision trees", "C14-R5": "atomic cache write, version check",
 				"C14-R6": "codec field coverage", "C14-R7": "no loop-carried buffer aliasing in the encoder",
 				"C14-R8": "synchronisation protocol tables: Refresh (apply exactly what was fetched, advance the sync point, store the file cache on a full sync), fetchProfiles (a full sync asks from the zero time), needsFullSync, loadFileCache"},
@@ -593,6 +593,8 @@ func c14Cache(c *an.Ctx) {
 	}
 	sharedFileMutators(c, "C14-R5", "profiledb")
 	c14CodecNames(c, "C14-R6", nil, 60)
+	c.Floor("C14-R11", 9)
+	c14WeekTables(c, "C14-R11")
 	decide(c, "C14-R5", st+"Load", an.DecideCfg{
 		Dom: an.Domain{"readerr": an.Strs("nil", "notexist", "other"), "unmarshalerr": an.Bools, "(fc.Version == ver)": an.Bools},
 		OnCall: func(it *an.Interp, name string, args []an.AV) (an.AV, bool) {
@@ -1295,4 +1297,219 @@ func c14SetTables(c *an.Ctx) {
 			return ""
 		},
 	})
+}
+
+// c14WeekTables checks both directions of the weekly-schedule codecs.  The
+// internal schedule is an array indexed by time.Weekday (Sunday = 0); the
+// protobuf messages have one field per day.  Every element 0..6 must be written
+// from the field of its own day, either by seven constant-index stores or by a
+// loop over a seven-element list of the day fields in weekday order that visits
+// all seven; and every day field must be written from its own element.
+func c14WeekTables(c *an.Ctx, rule string) {
+	days := []string{"sun", "mon", "tue", "wed", "thu", "fri", "sat"}
+	isWeek := func(t types.Type) bool {
+		return an.TypeName(t) == "filter.WeeklySchedule" || an.TypeName(an.Deref(t)) == "filter.WeeklySchedule"
+	}
+	unconv := func(v ssa.Value) ssa.Value {
+		for {
+			switch x := v.(type) {
+			case *ssa.Convert:
+				v = x.X
+			case *ssa.ChangeType:
+				v = x.X
+			default:
+				return v
+			}
+		}
+	}
+	// srcField: the field a value is converted from (through one-operand repo converters)
+	var srcField func(v ssa.Value, d int) string
+	srcField = func(v ssa.Value, d int) string {
+		if d > 6 {
+			return ""
+		}
+		switch x := v.(type) {
+		case *ssa.Call:
+			if len(x.Call.Args) == 1 && !x.Call.IsInvoke() {
+				return srcField(x.Call.Args[0], d+1)
+			}
+		case *ssa.UnOp:
+			if x.Op == token.MUL {
+				if _, f, _, ok := an.FieldOf(x.X); ok {
+					return f
+				}
+			}
+		case *ssa.Extract:
+			return srcField(x.Tuple, d+1)
+		case *ssa.Convert:
+			return srcField(x.X, d+1)
+		}
+		return ""
+	}
+	sites := 0
+	for _, fn := range c.AllFns {
+		if fn.Blocks == nil || c.IsTestFile(fn.Pos()) || strings.Contains(c.Pos(fn.Pos()), ".pb.go:") {
+			continue
+		}
+		k := an.FnKey(fn)
+		if (!strings.HasPrefix(k, "backendpb.") && !strings.HasPrefix(k, "profiledb/")) || strings.Contains(k, "profiledbtest.") {
+			continue
+		}
+		consts := map[int64]ssa.Value{}
+		var constPos token.Pos
+		an.Instrs(fn, func(in ssa.Instruction) {
+			switch x := in.(type) {
+			case *ssa.Store:
+				// ---- to the internal array
+				ia, ok := x.Addr.(*ssa.IndexAddr)
+				if ok && isWeek(ia.X.Type()) {
+					if kv, isK := an.ConstInt(ia.Index); isK {
+						consts[kv] = x.Val
+						constPos = x.Pos()
+						return
+					}
+					sites++
+					c.Analysed(k)
+					key := k + " fills the week by a loop"
+					idx := unconv(ia.Index)
+					// the loop around the store
+					var loop *loopInfo
+					for _, l := range naturalLoops(fn) {
+						if l.blocks[x.Block()] && (loop == nil || len(l.blocks) < len(loop.blocks)) {
+							loop = l
+						}
+					}
+					if loop == nil {
+						c.Und(rule, key, x.Pos(), "a variable-index store outside a loop")
+						return
+					}
+					// the list of day fields indexed by the same variable
+					var list ssa.Value
+					for b := range loop.blocks {
+						for _, ins := range b.Instrs {
+							if ia2, ok := ins.(*ssa.IndexAddr); ok && !isWeek(ia2.X.Type()) && unconv(ia2.Index) == idx {
+								list = ia2.X
+							}
+						}
+					}
+					if list == nil {
+						c.Und(rule, key, x.Pos(), "no list of day fields indexed by the loop variable")
+						return
+					}
+					// its literal: seven fields in weekday order
+					var arr *ssa.Alloc
+					if sl, ok := list.(*ssa.Slice); ok {
+						arr, _ = sl.X.(*ssa.Alloc)
+					}
+					if arr == nil || arr.Referrers() == nil {
+						c.Und(rule, key, x.Pos(), "the list of day fields is not a literal")
+						return
+					}
+					got := map[int64]string{}
+					for _, r := range *arr.Referrers() {
+						if ea, ok := r.(*ssa.IndexAddr); ok && ea.Referrers() != nil {
+							if kv, isK := an.ConstInt(ea.Index); isK {
+								for _, rr := range *ea.Referrers() {
+									if st2, ok := rr.(*ssa.Store); ok && st2.Addr == ssa.Value(ea) {
+										got[kv] = strings.ToLower(srcField(st2.Val, 0))
+									}
+								}
+							}
+						}
+					}
+					bad := ""
+					for i, d := range days {
+						if !strings.HasPrefix(got[int64(i)], d) {
+							bad = fmt.Sprintf("element %d of the list is %q, not the field of %s", i, got[int64(i)], d)
+						}
+					}
+					if len(got) != 7 {
+						bad = fmt.Sprintf("the list has %d elements", len(got))
+					}
+					// the loop's bound
+					hdrIf, _ := loop.header.Instrs[len(loop.header.Instrs)-1].(*ssa.If)
+					if hdrIf == nil {
+						c.Und(rule, key, x.Pos(), "loop header without a condition")
+						return
+					}
+					if cond, ok := hdrIf.Cond.(*ssa.BinOp); ok && bad == "" {
+						switch {
+						case cond.Op == token.LSS && isLenOf(cond.Y, list):
+						case cond.Op == token.LSS || cond.Op == token.LEQ:
+							kv, isK := an.ConstInt(cond.Y)
+							if cond.Op == token.LEQ {
+								kv++
+							}
+							if !isK {
+								c.Und(rule, key, x.Pos(), "loop bound not recognised")
+								return
+							}
+							if kv < 7 {
+								bad = fmt.Sprintf("the loop stops before index %d: %s is never converted", kv, days[kv])
+							}
+							// a counted loop starts at Sunday
+							if phi, ok := unconv(cond.X).(*ssa.Phi); ok {
+								for i, e := range phi.Edges {
+									if !loop.blocks[phi.Block().Preds[i]] {
+										if s, isK := an.ConstInt(e); !isK || s != 0 {
+											bad = "the loop does not start at index 0 (Sunday)"
+										}
+									}
+								}
+							}
+						default:
+							c.Und(rule, key, x.Pos(), "loop condition not recognised")
+							return
+						}
+					} else if bad == "" {
+						c.Und(rule, key, x.Pos(), "loop condition not recognised")
+						return
+					}
+					c.Check(bad == "", rule, key, x.Pos(), "the loop converts all seven days from a list in weekday order", bad)
+					return
+				}
+				// ---- from the internal array to a per-day field
+				if _, f, _, ok := an.FieldOf(x.Addr); ok {
+					v := x.Val
+					for {
+						call, isCall := v.(*ssa.Call)
+						if !isCall || len(call.Call.Args) != 1 || call.Call.IsInvoke() {
+							break
+						}
+						v = call.Call.Args[0]
+					}
+					if ld, isLd := v.(*ssa.UnOp); isLd && ld.Op == token.MUL {
+						if ia3, isIA := ld.X.(*ssa.IndexAddr); isIA && isWeek(ia3.X.Type()) {
+							sites++
+							c.Analysed(k)
+							kv, isK := an.ConstInt(ia3.Index)
+							c.Check(isK && kv >= 0 && kv < 7 && strings.HasPrefix(strings.ToLower(f), days[kv]), rule,
+								k+" day field "+f, x.Pos(), "written from its own weekday's element",
+								fmt.Sprintf("day field %s is written from element %d of the week", f, kv))
+						}
+					}
+				}
+			}
+		})
+		if len(consts) > 0 {
+			sites++
+			c.Analysed(k)
+			bad := ""
+			for i, d := range days {
+				v, ok := consts[int64(i)]
+				if !ok {
+					bad = fmt.Sprintf("element %d (%s) is never set", i, d)
+					continue
+				}
+				if f := strings.ToLower(srcField(v, 0)); !strings.HasPrefix(f, d) {
+					bad = fmt.Sprintf("element %d (%s) is set from field %q", i, d, f)
+				}
+			}
+			c.Check(bad == "", rule, k+" fills the week element by element", constPos,
+				"all seven days are set, each from its own field", bad)
+		}
+	}
+	if sites < 9 {
+		c.Und(rule, "weekly-schedule codecs", token.NoPos, "only %d conversion sites recognised (expected the two decoders and the seven-field encoder)", sites)
+	}
 }
